@@ -14,11 +14,16 @@ from hypothesis import strategies as st
 # the property excludes (< > ? x y & and the duration marks q p P .)
 SIG = list("\"$'()/\\:;JKLkMmWwNOSTtVXZ[]_^`~ijls{}")
 assert len(SIG) == 37 and len(set(SIG)) == 37
+_SIG_SET = set(SIG)
 ACC_SUFFIX_SIGS = set('XZij')          # also readable as accidental-display suffix: only on cells without accidental
 REST_SIG = list("();X'{}")
 # multi-character signifier units of the grammar (elided slurs, inverted mordent with tone).  Outside the canonicity
 # claim of C01 (they contain '&' / combine), but inside the grammar: used where content conservation is checked (C03).
-SIG_EXT = ['&(', '&&(', '&)', '&&)', 'Ww']
+SIG_EXT = ['&(', '&&(', '&)', '&&)', 'Ww',
+           # further units of the grammar that are outside the canonicity claim: editorial marks, footnotes, staff changes
+           # attached to a slur / beam, hidden tie
+           'xx', 'yy', '??', '[y', '(<', 'L>']
+_DISPLAY_CHARS = set('xXiIjZyY')
 DISPLAY = ['x', 'X', 'i', 'I', 'j', 'Z', 'y', 'yy', 'Y', 'YY']
 NUMS = ['1', '2', '4', '8', '16', '32', '64', '0', '00', '3', '6', '12', '24', '4%3', '3%2', '16%5']
 LET = 'abcdefg'
@@ -76,6 +81,18 @@ def constrain_cell(ns, rule_iv=True):
     dropw = 'W' in allsigs and 'w' in allsigs
     hasrest = rule_iv and len(ns) > 1 and any(n['p'] == 'r' for n in ns)
     dropboth = 'Ww' in allsigs
+    # a multi-character unit shares no character with any other unit of the cell (so that no two units can be read as
+    # one, whatever order they are written or exported in); x / y units only on cells without accidental
+    multi = [s for s in dict.fromkeys(allsigs) if len(s) > 1]
+    banned = set()
+    keep_multi = []
+    for m in multi:
+        if not (set(m) & banned) and not (anyacc and set(m) & _DISPLAY_CHARS):
+            keep_multi.append(m)
+            banned |= set(m)
+    for n in ns:
+        n['sigs'] = [s for s in n['sigs'] if (len(s) > 1 and s in keep_multi) or (len(s) == 1 and s not in banned)]
+        n['sigs'] = [s for s in n['sigs'] if not (anyacc and set(s) & _DISPLAY_CHARS)]
     for n in ns:
         n['sigs'] = [s for s in n['sigs']
                      if not (anyacc and s in ACC_SUFFIX_SIGS) and not (dropw and s == 'w') and not (dropboth and s in ('W', 'w'))
@@ -115,8 +132,8 @@ def layouts(draw, n):
     out = []
     for s in sigs:
         out.append([s, draw(st.sampled_from(slots))])
-        if draw(st.integers(0, 6)) == 0:
-            out.append([s, draw(st.sampled_from(slots))])  # repetition
+        if draw(st.integers(0, 6)) == 0 and s in _SIG_SET:
+            out.append([s, draw(st.sampled_from(slots))])  # repetition (canonical alphabet only: 'yy' twice is 'yyyy')
     return out
 
 
